@@ -1,6 +1,9 @@
 use crate::engine::run::Ctx;
 
 pub mod bytes;
+pub mod c01;
+pub mod c19;
+pub mod c20;
 pub mod common;
 pub mod fci15;
 pub mod compound;
@@ -15,7 +18,10 @@ pub mod writers;
 
 pub fn run(ctx: &mut Ctx) -> bool {
     match ctx.prop {
+        "C01" => c01::c01(ctx),
         "C02" => roundtrip::c02(ctx),
+        "C19" => c19::c19(ctx),
+        "C20" => c20::c20(ctx),
         "C03" => roundtrip::c03(ctx),
         "C04" => roundtrip::c04(ctx),
         "C05" => roundtrip::c05(ctx),
